@@ -8,8 +8,15 @@ package configmigrate
 // The generic YAML helpers are inlined into every step (their instantiated bodies are verified at each call site).
 //@ func fieldVal(obj yobj, key string) (v T, ok bool, err error)
 //@   inline
+// moveVal is verified once per instantiation against this contract and used through it by the steps: only the two
+// named keys may change, in src and in dst (which may be the same map).
 //@ func moveVal(src yobj, dst yobj, srcKey string, dstKey string) (err error)
-//@   inline
+//@   property C13
+//@   requires dst != nil
+//@   modifies entries(src), entries(dst)
+//@   ensures others-kept-src: forall k string :: k != srcKey && k != dstKey ==> (k in src) == old(k in src) && src[k] == old(src[k])
+//@   ensures others-kept-dst: forall k string :: k != srcKey && k != dstKey ==> (k in dst) == old(k in dst) && dst[k] == old(dst[k])
+//@   ensures moved: err == nil && old(srcKey in src) && old(src[srcKey]) != nil ==> (dstKey in dst) && !(srcKey in src) || srcKey == dstKey
 //@ func moveSameVal(src yobj, dst yobj, key string) (err error)
 //@   inline
 
@@ -289,3 +296,12 @@ package configmigrate
 //@   property C13
 //@   modifies *
 //@   ensures top-level-kept: forall k string :: (k in diskConf) == old(k in diskConf) && diskConf[k] == old(diskConf[k])
+
+// addQUICPort is string surgery on one upstream address (url.Parse etc.); its body is not verified.
+//@ func addQUICPort(ups string, port int) (withPort string)
+//@   trusted
+//@   modifies nothing
+
+//@ func addQUICPorts(ups yarr, port int) (err error)
+//@   property C13
+//@   modifies elems(ups)
